@@ -51,6 +51,33 @@ type C07Case struct {
 	Frames    []C07Frame `json:"frames"`
 	ViaConn   bool       `json:"via_conn"`
 	Chunk     int        `json:"chunk"` // via_conn: max bytes per read of the receiving socket
+	// Keep: every frame is received into its own Packet and all of them are looked at again after the
+	// last one (and after further traffic through the package's pools)
+	Keep bool `json:"keep,omitempty"`
+}
+
+// c07Recheck verifies retained packets after unrelated traffic went through the shared pools.
+func c07Recheck(c C07Case, kept []pk.Packet, what string) *pbt.Violation {
+	var scratch bytes.Buffer
+	filler := pk.Packet{ID: 0x7e, Data: bytes.Repeat([]byte{0xEE}, 5000)}
+	for _, thr := range []int{-1, 0, 256, 1 << 20} {
+		scratch.Reset()
+		var q pk.Packet
+		if err := filler.Pack(&scratch, thr); err == nil {
+			_ = q.UnPack(&scratch, thr)
+		}
+	}
+	for i, f := range c.Frames {
+		if i >= len(kept) {
+			break
+		}
+		if kept[i].ID != f.ID || !bytes.Equal(kept[i].Data, f.payload()) {
+			return pbt.V("c07.retained", "pack then unpack returns the identical id and payload (the packet stays what was received)",
+				"%s: packet #%d of %d looked at again after later traffic: id %d with %d bytes, was id %d with %d bytes (thr %d)%s",
+				what, i, len(c.Frames), kept[i].ID, len(kept[i].Data), f.ID, f.Len, c.Threshold, firstDiff(kept[i].Data, f.payload()))
+		}
+	}
+	return nil
 }
 
 func idLen(id int32) int { return len(leb.Encode(uint64(uint32(id)), 32)) }
@@ -99,8 +126,12 @@ func c07Check(c C07Case) *pbt.Violation {
 	// (1) UnPack o Pack = identity, frame by frame, with one reused receiver; sentinel left
 	rd := bytes.NewReader(append(wire, 0xA5, 0x5A, 0xA5))
 	var recv pk.Packet
+	var kept []pk.Packet
 	for i, f := range c.Frames {
 		var err error
+		if c.Keep {
+			recv = pk.Packet{}
+		}
 		if pv, stack := pbt.Try(func() { err = recv.UnPack(rd, c.Threshold) }); pv != nil {
 			return pbt.V(pbt.PanicKey("c07.unpack", stack), "no panic", "UnPack #%d panicked: %v\n%s", i, pv, stack)
 		}
@@ -113,6 +144,14 @@ func c07Check(c C07Case) *pbt.Violation {
 		}
 		if consumed := len(wire) + 3 - rd.Len(); consumed != offsets[i+1] {
 			return pbt.V("c07.unpack.consumed", "consumes exactly one frame", "after frame #%d the reader is at %d, frame ends at %d", i, consumed, offsets[i+1])
+		}
+		if c.Keep {
+			kept = append(kept, recv)
+		}
+	}
+	if c.Keep {
+		if v := c07Recheck(c, kept, "UnPack"); v != nil {
+			return v
 		}
 	}
 	if rd.Len() != 3 {
@@ -156,8 +195,12 @@ func c07CheckConn(c C07Case) *pbt.Violation {
 		}
 	}
 	var recv pk.Packet
+	var kept []pk.Packet
 	for i, f := range c.Frames {
 		var err error
+		if c.Keep {
+			recv = pk.Packet{}
+		}
 		if pv, stack := pbt.Try(func() { err = cb.ReadPacket(&recv) }); pv != nil {
 			return pbt.V(pbt.PanicKey("c07.conn.read", stack), "no panic", "ReadPacket #%d panicked: %v\n%s", i, pv, stack)
 		}
@@ -166,6 +209,14 @@ func c07CheckConn(c C07Case) *pbt.Violation {
 		}
 		if recv.ID != f.ID || !bytes.Equal(recv.Data, f.payload()) {
 			return pbt.V("c07.conn.roundtrip", "packets recovered in order over a Conn pair", "packet #%d: got id %d/%d bytes, want id %d/%d bytes", i, recv.ID, len(recv.Data), f.ID, f.Len)
+		}
+		if c.Keep {
+			kept = append(kept, recv)
+		}
+	}
+	if c.Keep {
+		if v := c07Recheck(c, kept, "Conn.ReadPacket"); v != nil {
+			return v
 		}
 	}
 	if b.Pending() != 0 {
@@ -360,6 +411,7 @@ func genC07(t *rapid.T) C07Case {
 		}
 	}
 	c.ViaConn = rapid.IntRange(0, 3).Draw(t, "conn") == 0
+	c.Keep = rapid.Bool().Draw(t, "keep")
 	if c.ViaConn {
 		c.Chunk = rapid.SampledFrom([]int{0, 1, 3, 7, 4096}).Draw(t, "chunk")
 	}
@@ -378,6 +430,9 @@ var c07Prop = pbt.Register(pbt.Prop[C07Case]{
 		}
 		if c.ViaConn {
 			labels = append(labels, "via_conn")
+		}
+		if c.Keep {
+			labels = append(labels, "received_packets_retained")
 		}
 		near, huge, both := false, false, 0
 		for _, f := range c.Frames {
